@@ -623,7 +623,8 @@ let c18 s b =
       (* once yaw or pitch has been non-zero the matrix products of nalgebra and of the
          model round differently: the centre and the flags are then not compared *)
       let zooming = (match e with EInteract3 _ | EZoom3 _ -> true | _ -> false) in
-      if not (finite v.v3_scale && finite cx && finite cy && finite cz) then blown := true;
+      let rotated_by_now = !tainted || cb v.v3_yaw <> 0 || cb v.v3_pitch <> 0 in
+      if not (finite v.v3_scale) || (not rotated_by_now && not (finite cx && finite cy && finite cz)) then blown := true;
       if !blown then Printf.bprintf b "! ; " else
       if !tainted || (zooming && (cb v.v3_yaw <> 0 || cb v.v3_pitch <> 0)) then
         Printf.bprintf b "? ~ ~ ~ %d %d %d ; " (cb v.v3_scale) (cb v.v3_yaw) (cb v.v3_pitch)
